@@ -526,6 +526,38 @@ def D3(m, R):
                 continue
             if body is not sf.body and len(body) == 1 and isinstance(body[0], ast.Return) and body[0].value is not None:
                 pre_expr = (body[0].value, body[0])
+        if len(body) == 3 and isinstance(body[0], ast.Assign) and isinstance(body[0].targets[0], ast.Name) and isinstance(body[0].value, ast.List) and \
+                not body[0].value.elts and isinstance(body[1], ast.For) and not body[1].orelse and len(body[1].body) == 1 and isinstance(body[1].body[0], ast.Expr) and \
+                isinstance(body[1].body[0].value, ast.Call) and call_name(body[1].body[0].value) == 'append' and \
+                is_name(body[1].body[0].value.func.value, body[0].targets[0].id) and len(body[1].body[0].value.args) == 1 and \
+                isinstance(body[2], ast.Return) and is_name(body[2].value, body[0].targets[0].id):
+            # `L = []; for x in IT: L.append(E); return L` is `return [E for x in IT]`
+            lc_ = ast.copy_location(ast.ListComp(elt=body[1].body[0].value.args[0], generators=[
+                ast.comprehension(target=body[1].target, iter=body[1].iter, ifs=[], is_async=0)]), body[1])
+            r_ = ast.copy_location(ast.Return(value=lc_), body[2])
+            ast.fix_missing_locations(r_)
+            for parent in ast.walk(r_):
+                for child in ast.iter_child_nodes(parent):
+                    child._parent = parent
+            r_._parent = sf.node
+            body = [r_]
+            pre_expr = (lc_, r_)
+        if len(body) == 2 and isinstance(body[0], ast.Assign) and len(body[0].targets) == 1 and isinstance(body[0].targets[0], ast.Tuple) and \
+                all(isinstance(t_, ast.Name) for t_ in body[0].targets[0].elts) and isinstance(body[1], ast.Return) and isinstance(body[1].value, (ast.List, ast.Tuple)) and \
+                len(body[1].value.elts) == len(body[0].targets[0].elts) and len({call_name(e_) for e_ in body[1].value.elts}) == 1 and \
+                all(isinstance(e_, ast.Call) and len(e_.args) == 1 and not e_.keywords and is_name(e_.args[0], t_.id)
+                    for e_, t_ in zip(body[1].value.elts, body[0].targets[0].elts)):
+            # `a, b, c = CALL; return [W(a), W(b), W(c)]` is `return [W(x) for x in CALL]` (the unpacking fixes the length)
+            lc_ = ast.copy_location(ast.ListComp(elt=ast.Call(func=body[1].value.elts[0].func, args=[ast.Name(id='x_', ctx=ast.Load())], keywords=[]), generators=[
+                ast.comprehension(target=ast.Name(id='x_', ctx=ast.Store()), iter=body[0].value, ifs=[], is_async=0)]), body[1])
+            r_ = ast.copy_location(ast.Return(value=lc_), body[1])
+            ast.fix_missing_locations(r_)
+            for parent in ast.walk(r_):
+                for child in ast.iter_child_nodes(parent):
+                    child._parent = parent
+            r_._parent = sf.node
+            body = [r_]
+            pre_expr = (lc_, r_)
         # form (ii): copy / call / re-wrap
         if len(body) == 3 and isinstance(body[0], ast.Assign) and isinstance(body[2], ast.Return):
             a0, s1, r2 = body
@@ -1263,32 +1295,65 @@ def D5(m, R):
         spec = f.own_params()[0]
         fmt = f.vararg
         selfn = f.self_name
-        # (1) escape iff not regex
+        # the finditer call: in the loop header, or bound to a local first (`matches = re.finditer(..)` ... `for m in matches`)
+        fi_defs = {n.targets[0].id: n.value for n in f.body if isinstance(n, ast.Assign) and len(n.targets) == 1 and isinstance(n.targets[0], ast.Name) and
+                   call_name(n.value) == 'finditer' and
+                   sum(1 for x in f.walk() if isinstance(x, ast.Name) and x.id == n.targets[0].id and isinstance(x.ctx, ast.Store)) == 1}
+        loops = [st for st in f.body if isinstance(st, ast.For) and (call_name(st.iter) == 'finditer' or (isinstance(st.iter, ast.Name) and st.iter.id in fi_defs))]
+        it0 = None
+        if len(loops) == 1:
+            it0 = loops[0].iter if call_name(loops[0].iter) == 'finditer' else fi_defs[loops[0].iter.id]
+        pat = it0.args[0] if it0 is not None and it0.args else None
+        # (1) escape iff not regex: the pattern searched is spec itself when regex, re.escape(spec) otherwise -- spec re-bound in place, or a local
+        # bound under the flag
         esc = None
         for st in f.body:
             if isinstance(st, ast.If) and any(isinstance(x, ast.Assign) and norm(x) == '%s = re.escape(%s)' % (spec, spec) for x in st.body):
                 esc = st
         cons = name + ' escape'
-        if esc is None:
+        pat_local_ok = None
+        if esc is None and isinstance(pat, ast.Name) and pat.id != spec:
+            defs_ = [n for n in f.walk() if isinstance(n, ast.Assign) and len(n.targets) == 1 and is_name(n.targets[0], pat.id)]
+            val_by_flag = {}
+            if len(defs_) == 2 and all(isinstance(getattr(d_, '_parent', None), ast.If) for d_ in defs_) and defs_[0]._parent is defs_[1]._parent:
+                g_ = defs_[0]._parent
+                for rv in (True, False):
+                    tv_ = eval_guard(g_.test, flag_valuation({'regex': rv}))
+                    if tv_ is not None:
+                        val_by_flag[rv] = norm(next(d_ for d_ in defs_ if (d_ in g_.body) == tv_).value)
+            elif len(defs_) == 1 and isinstance(defs_[0].value, ast.IfExp):
+                for rv in (True, False):
+                    tv_ = eval_guard(defs_[0].value.test, flag_valuation({'regex': rv}))
+                    if tv_ is not None:
+                        val_by_flag[rv] = norm(defs_[0].value.body if tv_ else defs_[0].value.orelse)
+            if len(val_by_flag) == 2:
+                pat_local_ok = val_by_flag == {True: spec, False: 're.escape(%s)' % spec}
+                R.check(pat_local_ok, f, defs_[0], 're.escape applied iff not regex',
+                        'the pattern searched is %s for regex=True and %s for regex=False; expected %s and re.escape(%s)' % (val_by_flag[True], val_by_flag[False], spec, spec),
+                        construct=cons)
+        if pat_local_ok is not None:
+            spec_searched = pat.id
+        elif esc is None:
             R.viol(f, f.node, 'the pattern is never passed through re.escape: a plain matchspec would be read as a regex', construct=cons)
+            spec_searched = spec
         else:
             tt = {rv: eval_guard(esc.test, flag_valuation({'regex': rv})) for rv in (True, False)}
             R.check(tt == {True: False, False: True} and not esc.orelse, f, esc, 're.escape applied iff not regex',
                     're.escape applied for regex in %s' % sorted(k for k, v in tt.items() if v), construct=cons)
+            spec_searched = spec
         # (2) finditer
-        loops = [st for st in f.body if isinstance(st, ast.For) and call_name(st.iter) == 'finditer']
         cons = name + ' finditer'
         if len(loops) != 1:
             R.undecided(f, f.node, '%d finditer loops' % len(loops), construct=cons)
             continue
         lp = loops[0]
-        it = lp.iter
+        it = it0
         problems = []
         if norm(it.func) != 're.finditer':
             problems.append('iterates %s' % norm(it.func))
         args = list(it.args)
-        if len(args) < 2 or norm(args[0]) != spec or norm(args[1]) != '%s.%s' % (selfn, ro.TEXT):
-            problems.append('searches (%s), expected (%s, %s.%s, flags)' % (', '.join(norm(a) for a in args[:2]), spec, selfn, ro.TEXT))
+        if len(args) < 2 or norm(args[0]) != spec_searched or norm(args[1]) != '%s.%s' % (selfn, ro.TEXT):
+            problems.append('searches (%s), expected (%s, %s.%s, flags)' % (', '.join(norm(a) for a in args[:2]), spec_searched, selfn, ro.TEXT))
         flags = args[2] if len(args) > 2 else next((k.value for k in it.keywords if k.arg == 'flags'), None)
         if isinstance(flags, ast.Name):
             # a local holding the flags: its single definition
